@@ -115,6 +115,11 @@ def same_items(browser, model, rec, case, where):
     return True
 
 
+def fresh_str(text):
+    '''An equal string that is a new object.'''
+    return ''.join(list(text))
+
+
 def gen_items(rng, tag):
     items = []
     num = rng.choice([0, 1, 2, 3, 4, 5, 6, 8, 12])
@@ -165,7 +170,9 @@ def run_case(seed, idx, rec):
     inputs = []
     for meta, data in items:
         dct = dict(meta)
-        dct[data_key] = data
+        # an equal string that is another object (a key read from a file,
+        # assembled at run time, ...), not the one given to the browser
+        dct[fresh_str(data_key) if rng.random() < 0.3 else data_key] = data
         inputs.append(dct)
     d_inputs = snapshot.digest(inputs)
     d_glob = snapshot.digest(glob)
@@ -238,10 +245,10 @@ def run_case(seed, idx, rec):
             o_inputs = []
             for meta, data in o_items:
                 dct = dict(meta)
-                dct[data_key] = data
+                dct[fresh_str(data_key)] = data
                 o_inputs.append(dct)
             try:
-                other = Browser(o_inputs, data_key=data_key,
+                other = Browser(o_inputs, data_key=fresh_str(data_key),
                                 global_vars=o_glob)
                 d_other = snapshot.digest(other)
                 new = browser.merge(other)
